@@ -103,14 +103,15 @@ def h_descriptions(h):
             dep, fixed = pnames[:1], pnames[1:]
         kw = {}
         if cval != -2:
-            kw = {f"f_{p}": 1.0 for p in fixed}
+            # fixed values are symbolic (0 included: a location fixed at zero is the most common fixed parameter)
+            kw = {f"f_{p}": h.real(f"d{i}_fix_{p}", 0.0, 2.0) for p in fixed}
             params = {p: _dep() for p in dep}
             if fl["both"]:
                 # a parameter that is fixed in the template AND given a dependence function
                 if fixed:
                     params[fixed[0]] = _dep()
                 else:
-                    kw[f"f_{dep[0]}"] = 1.0
+                    kw[f"f_{dep[0]}"] = h.real(f"d{i}_fixboth", 0.0, 2.0)
             if fl["neither"]:
                 del params[dep[0]]
             if fl["unknownparam"]:
